@@ -476,7 +476,9 @@ impl Watch {
                 if let Some(Ev::Send { rel, .. }) = evs.iter().find(|e| matches!(e, Ev::Send { .. })) {
                     let want = if was_stored { None } else { Some(id) };
                     if *rel != want {
-                        self.flag(&["C08"], "release-on-send-error-hint", format!("{what}: release_packet_id_if_send_error = {:?}, expected {:?}", rel, want));
+                        // a hint to give back the id of a packet that stays stored threatens C06 as well
+                        let props: &[&'static str] = if was_stored { &["C08", "C06"] } else { &["C08"] };
+                        self.flag(props, "release-on-send-error-hint", format!("{what}: release_packet_id_if_send_error = {:?}, expected {:?}", rel, want));
                         return false;
                     }
                 }
@@ -499,6 +501,13 @@ impl Watch {
                         return;
                     }
                 }
+            }
+            if pkt.kind == 0 && pkt.v == 5 && bytes.first().map_or(false, |b| b >> 4 == PUBLISH) {
+                // the only packets the library re-writes before sending are v5.0 PUBLISHes (topic
+                // alias added, or stripped for the stored copy): bytes an independent decoder
+                // cannot read are a fault of that rewriting
+                self.flag(&["C13", "C01", "C14"], "emitted-publish-undecodable", format!("{} ({} bytes, size() = {size})", pkt.topic, bytes.len()));
+                return;
             }
             if *size != bytes.len() {
                 self.flag(&["C14"], "size-disagrees-with-encoding", format!("{}: size() = {size} but {} bytes", pkt.short(), bytes.len()));
